@@ -270,7 +270,12 @@ def restart(ctx, rng, idx):
     res1 = S.solve(s.field, cfl, stop={"maxit": N})
     mid = res1[-1]
     ctx.true("restart-same-object", mid.it == N, "restart/returned-field-iteration-tag", {"it": mid.it, "N": N}, cls="restart-same-object")
-    t2, res2, log2 = _traj(S.restart, mid, cfl, stop={"maxit": M}, monitors=mons)
+    # the field handed to restart() is the returned object itself, a copy of it, or a field rebuilt from its data, time and iteration
+    # tag (a reloaded checkpoint): "from the returned field" means its CONTENT
+    how = int(rng.integers(3))
+    mid_arg = [mid, mid.copy(), ffield.fdata(mid.model, mid.mesh, [np.array(d, copy=True) for d in mid.data], t=mid.time, it=mid.it)][how]
+    ctx.describe(restart_field=["returned object", "copy of it", "rebuilt from data/time/it"][how])
+    t2, res2, log2 = _traj(S.restart, mid_arg, cfl, stop={"maxit": M}, monitors=mons)
     end = t2[-1]
     ctx.true("restart-same-object", _same(full[-1], end), "restart/same-object/state-differs/" + who, _diff(full[-1], end), cls="restart-same-object")
     ctx.true("restart-same-object", S.totnit() == N + M and S.nit() == M, "restart/cumulative-iteration-count", {"totnit": S.totnit(), "nit": S.nit(), "N": N, "M": M}, cls="restart-same-object")
